@@ -7,6 +7,9 @@
   R3 writer/reader key agreement for type_rewrites (polarity chain)
   R4 frozen list of rewrite suppressions
   R5 ir.Set single constructor, rewrite registration conditions
+  R6 the filter built from the policies: default deny, deny wins, kinds
+  R7 one rewrite registry per compilation; readers use the material type id;
+     cached alias/global compilations are keyed by the security context
 """
 from __future__ import annotations
 
@@ -366,6 +369,208 @@ def run(repo: Repo, ctx) -> None:
     ctx.ob('C07.R5', 'setgen.new_set:registration-before-construction', ok,
            'the set is constructed on a path that skipped the rewrite '
            'registration test', ns.loc, sample='test dominates construction')
+    _r6(repo, ctx)
+    _r7(repo, ctx)
+
+
+def _r6(repo: Repo, ctx) -> None:
+    from ..absint import Facts, must_pass, open_nodes
+    ctx.floor('C07.R6', 6)
+    gf = repo.func(f'{QLC}.policies.get_rewrite_filter')
+    ctx.saw(gf)
+    g = CFG(gf.node)
+    # (a) "no filter at all" is decided on the full policy list of the type
+    nones = [n for n in g.nodes if n.kind == 'stmt' and isinstance(
+        n.ast, ast.Return) and (n.ast.value is None or norm(n.ast.value)
+                                == 'None')]
+    tests = []
+    for n in nones:
+        for t in g.nodes:
+            if t.kind == 'test' and (g.edge_dominates(t.id, 'T', n.id)
+                                     or g.edge_dominates(t.id, 'F', n.id)):
+                tests.append(t)
+    txt = [inline_locals(gf.node, t.ast) for t in tests]
+    ok = bool(nones) and bool(txt) and all(
+        'get_access_policies(' in x and 'get_access_kinds' not in x
+        and 'mode' not in x for x in txt)
+    ctx.ob('C07.R6', 'get_rewrite_filter:no-filter-only-without-policies',
+           ok, f'get_rewrite_filter returns "no filter" under {txt}: a type '
+           f'that has policies, none of them for this access kind, must be '
+           f'filtered by FALSE (default deny), not left unfiltered',
+           gf.loc, sample=txt)
+    # (b) without an applicable allow policy the filter is FALSE
+    F = Facts({'allow': False,
+               'ctx.env.options.func_params is not None': False}, gf.node)
+    on = open_nodes(g, F)
+    asg = [g.nodes[i].ast for i in sorted(on) if g.nodes[i].kind == 'stmt'
+           and isinstance(g.nodes[i].ast, ast.Assign)
+           and norm(g.nodes[i].ast.targets[0]) == 'filter_expr']
+    first = [norm(a.value) for a in asg
+             if 'filter_expr' not in norm(a.value)]
+    ok = bool(first) and all(v == 'qlast.Constant.boolean(False)'
+                             for v in first) and bool(F.used)
+    ctx.ob('C07.R6', 'get_rewrite_filter:default-deny', ok,
+           f'with no applicable allow policy the filter starts from '
+           f'{first}', gf.loc, sample=first)
+    # (c) deny policies are conjoined negated
+    F = Facts({'deny': True, 'pols': True}, gf.node)
+    tg = [n.id for n in g.nodes if n.kind == 'stmt' and isinstance(
+        n.ast, ast.Assign) and norm(n.ast.targets[0]) == 'filter_expr'
+        and 'deny_expr' in norm(n.ast.value)
+        and "op='OR'" not in norm(n.ast.value)]
+    neg = any(isinstance(a, ast.Assign) and norm(a.targets[0]) == 'deny_expr'
+              and "op='NOT'" in norm(a.value) for a in ast.walk(gf.node))
+    ok = bool(tg) and neg and must_pass(g, F, tg) and bool(F.used)
+    ctx.ob('C07.R6', 'get_rewrite_filter:deny-wins', ok,
+           'deny policies are not conjoined (negated) with the allow part '
+           'on every path', gf.loc,
+           sample='filter := filter AND NOT (d1 OR d2 ...)')
+    # (d) a policy contributes only for the access kinds it names, and as
+    #     allow / deny according to its action
+    loop = [n for n in ast.walk(gf.node) if isinstance(n, ast.For)
+            and any(isinstance(c, ast.Call) and call_name(c) == 'compile_pol'
+                    for c in ast.walk(n))]
+    if len(loop) != 1:
+        raise AnalysisError('C07.R6: policy loop of get_rewrite_filter '
+                            'not found')
+    F = Facts({'mode not in pol.get_access_kinds(schema)': True}, gf.node)
+    on = open_nodes(g, F)
+    apps = [n.id for n in g.nodes if n.kind == 'stmt' and norm(n.ast) in (
+        'allow.append(expr)', 'deny.append(expr)')]
+    ok = len(apps) == 2 and bool(F.used) and not (set(apps) & on)
+    it = inline_locals(gf.node, loop[0].iter)
+    if len(apps) == 2 and not F.used and 'get_access_kinds' in it and (
+            ' if ' in it):
+        ok = True      # the loop runs over a list already filtered by kind
+    ctx.ob('C07.R6', 'get_rewrite_filter:kinds', ok,
+           'a policy that does not name this access kind still contributes '
+           'to the filter (or the kind test is gone)', gf.loc,
+           sample='mode not in kinds -> continue')
+    for val, want in ((True, 'allow.append(expr)'),
+                      (False, 'deny.append(expr)')):
+        F = Facts({'is_allow': val,
+                   'mode not in pol.get_access_kinds(schema)': False},
+                  None)
+        on = open_nodes(g, F)
+        other = 'deny.append(expr)' if val else 'allow.append(expr)'
+        bad = [n.id for n in g.nodes if n.kind == 'stmt'
+               and norm(n.ast) == other and n.id in on]
+        good = [n.id for n in g.nodes if n.kind == 'stmt'
+                and norm(n.ast) == want and n.id in on]
+        isal = [norm(a.value) for a in ast.walk(gf.node)
+                if isinstance(a, ast.Assign)
+                and norm(a.targets[0]) == 'is_allow']
+        ok = bool(good) and not bad and isal == [
+            'pol.get_action(schema) == qltypes.AccessPolicyAction.Allow']
+        ctx.ob('C07.R6', f'get_rewrite_filter:action={val}', ok,
+               f'an {"allow" if val else "deny"} policy is not collected '
+               f'as such ({isal})', gf.loc, sample=want)
+
+
+def _r7(repo: Repo, ctx) -> None:
+    ctx.floor('C07.R7', 5)
+    # (a) the registry object is created once per compilation and never
+    #     rebound: try_type_rewrite (and others) hold it across nested
+    #     compilation of policy bodies
+    holders = []
+    for m in repo.modules_in(QLC):
+        for f in repo._funcs_of(m):
+            for n in walk_no_nested(f.node):
+                if isinstance(n, ast.Assign) and norm(n.value) == \
+                        'ctx.env.type_rewrites' and isinstance(
+                            n.targets[0], ast.Name):
+                    holders.append(f.qualname)
+    ctx.ob('C07.R7', 'type_rewrites:alias-holders', True, loc='',
+           sample=sorted(holders), nontrivial=False)
+    for m in repo.modules_in(QLC):
+        for f in repo._funcs_of(m):
+            for n in walk_no_nested(f.node):
+                tg = n.targets if isinstance(n, ast.Assign) else (
+                    [n.target] if isinstance(n, (ast.AugAssign,
+                                                 ast.AnnAssign)) else [])
+                for t in tg:
+                    if isinstance(t, ast.Attribute) and t.attr == \
+                            'type_rewrites':
+                        ok = f.name == '__init__' and norm(t.value) == 'self'
+                        ctx.ob('C07.R7', f'{f.qualname}:rebinds-registry',
+                               ok or not holders,
+                               f'{f.qualname} rebinds {norm(t)} while '
+                               f'{sorted(holders)} hold the previous dict '
+                               f'across the compilation of policy bodies: '
+                               f'the rewrite they register afterwards is '
+                               f'written to an orphaned dict and the type '
+                               f'is read unfiltered', f.loc,
+                               sample=norm(n)[:70])
+    # (b) SQL-side readers look rewrites up under the material type id
+    n_r = 0
+    for m in repo.modules_in(PGC):
+        for f in repo._funcs_of(m):
+            for n in walk_no_nested(f.node):
+                key = None
+                if isinstance(n, ast.Compare) and len(n.ops) == 1 and \
+                        isinstance(n.ops[0], (ast.In, ast.NotIn)) and norm(
+                            n.comparators[0]).endswith('env.type_rewrites'):
+                    key = n.left
+                elif isinstance(n, ast.Call) and norm(n.func).endswith(
+                        'env.type_rewrites.get') and n.args:
+                    key = n.args[0]
+                if key is None:
+                    continue
+                n_r += 1
+                k = inline_locals(f.node, key)
+                first = k.lstrip('(').split(',')[0].strip()
+                ok = first.endswith('real_material_type.id') or (
+                    f.qualname == f'{RELCTX}.range_for_material_objtype'
+                    and first == 'typeref.id')
+                ctx.ob('C07.R7', f'{f.qualname}:reader-key={first[:40]}', ok,
+                       f'{f.qualname} looks a rewrite up under `{first}`: '
+                       f'rewrites are registered under the id of the '
+                       f'*material* type, so a view / shape typeref never '
+                       f'matches and the type is treated as unfiltered',
+                       f.loc, sample=k[:60])
+    if n_r < 3:
+        raise AnalysisError('C07.R7: readers of env.type_rewrites not found')
+    rfm = repo.func(f'{RELCTX}.range_for_material_objtype')
+    ok = any(isinstance(a, ast.Assign) and norm(a.targets[0]) == 'typeref'
+             and norm(a.value) == 'typeref.real_material_type'
+             for a in ast.walk(rfm.node))
+    ctx.ob('C07.R7', 'range_for_material_objtype:materialises-typeref', ok,
+           'range_for_material_objtype no longer normalises its typeref to '
+           'the material type before the rewrite lookup', rfm.loc,
+           sample='typeref = typeref.real_material_type')
+    # (c) compilations of schema aliases / computed globals are cached per
+    #     security context
+    n_w = 0
+    for m in repo.modules_in(QLC):
+        for f in repo._funcs_of(m):
+            for n in walk_no_nested(f.node):
+                key = None
+                if isinstance(n, ast.Assign) and isinstance(
+                        n.targets[0], ast.Subscript) and norm(
+                        n.targets[0].value).endswith('schema_view_cache'):
+                    key = n.targets[0].slice
+                elif isinstance(n, ast.Call) and isinstance(
+                        n.func, ast.Attribute) and n.func.attr in (
+                        'setdefault', 'update', '__setitem__') and norm(
+                        n.func.value).endswith('schema_view_cache'):
+                    key = n.args[0] if n.args else None
+                    if key is None:
+                        ctx.fail('C07.R7', f'{f.qualname}:cache-writer',
+                                 'bulk write to schema_view_cache', f.loc)
+                        continue
+                if key is None:
+                    continue
+                n_w += 1
+                k = inline_locals(f.node, key)
+                ok = 'ctx.get_security_context()' in k
+                ctx.ob('C07.R7', f'{f.qualname}:view-cache-key', ok,
+                       f'{f.qualname} stores a compiled alias / global '
+                       f'under `{k[:50]}`, which does not include the '
+                       f'current security context: a copy compiled inside '
+                       f'a policy body (rewrites ignored) is handed to the '
+                       f'query proper', f.loc, sample=k[:60])
+    if n_w < 1:
+        raise AnalysisError('C07.R7: writers of schema_view_cache not found')
 
 
 def _callers(repo: Repo, pkg: str, name: str):
